@@ -27,6 +27,7 @@ DEFAULT_PROFILE = {
     "delays": (10, 20, 30, 50, 100),
     "p_zero_delay": 0.0,
     "p_falsy_output": 0.0,
+    "p_list_ctx": 0.0,
     "p_after_two": 0.15,
     "p_named_delay": 0.2,
     "p_invoke": 0.0,
@@ -313,6 +314,9 @@ class MachineGen:
             if rng.random() < 0.5:
                 prm["id"] = f"snd{rng.randint(1, 3)}"
             out.append({"type": "xstate.raise", "params": prm})
+        if p.get("p_list_ctx") and rng.random() < p["p_list_ctx"]:
+            # a user action that mutates a nested value of the context IN PLACE (context["l"].append(...))
+            out.append(self.act("app_l", [["app", "l", 1]]))
         if p.get("p_stop_act") and rng.random() < p["p_stop_act"] and where == "trans":
             out.append(self.act("stop_inside", [["stop"]]))
         if rng.random() < p["p_slow_act"]:
@@ -493,6 +497,8 @@ class MachineGen:
                     self.add_invoke(n, nodes, root)   # several invokes on one state
         cfg = self.emit(root)
         cfg["context"] = {"n": 0, "a": 0}
+        if p.get("p_list_ctx"):
+            cfg["context"]["l"] = []
         lo, hi = p["max_iterations"]
         cfg["maxIterations"] = rng.randint(lo, hi)
         if rng.random() < p["p_machine_output"]:
